@@ -1016,13 +1016,14 @@ def cast_before_write(repo, col, sites):
     rule = "E-ORDER.cast-before-write"
     for ms, qn in sites:
         fn = repo.func(ms, qn)
-        calls = [c for c in calls_in(fn.node) if isinstance(c.func, ast.Attribute)
+        calls = [(c, fn) for c in calls_in(fn.node)
+                 if isinstance(c.func, ast.Attribute)
                  and c.func.attr == "write_chunk"]
         if not calls:
             # moved into a nested helper?
             for q, f2 in fn.module.functions.items():
                 if q.startswith(fn.qualname + "."):
-                    calls += [c for c in calls_in(f2.node)
+                    calls += [(c, f2) for c in calls_in(f2.node)
                               if isinstance(c.func, ast.Attribute)
                               and c.func.attr == "write_chunk"]
         if not calls:
@@ -1032,18 +1033,18 @@ def cast_before_write(repo, col, sites):
             col.add(rule, fn, "write_chunk", True, "write_chunk is not called "
                     "directly", undecided=True)
             continue
-        for c in calls:
+        for c, owner_fn in calls:
             a = c.args[0] if c.args else None
             if isinstance(a, ast.Name):
-                vs = [d.value for d in local_defs(fn.node).get(a.id, [])
-                      if d.value is not None]
-                if len(vs) == 1:
-                    a = vs[0]
-                elif not vs:
+                if a.id in owner_fn.params:
                     # a parameter of a nested helper: cast happens elsewhere
                     col.add(rule, fn, norm(c)[:60], True, "written array is a "
                             "helper's parameter", node=c, undecided=True)
                     continue
+                vs = [d.value for d in local_defs(owner_fn.node).get(a.id, [])
+                      if d.value is not None]
+                if len(vs) == 1:
+                    a = vs[0]
             ok = isinstance(a, ast.Call) and isinstance(a.func, ast.Attribute) \
                 and a.func.attr == "astype" and kwarg(a, "casting") is not None \
                 and kwarg(a, "casting").value == "equiv"
